@@ -3,6 +3,7 @@ import EmsModel.Core.TriangulateGeom
 import EmsModel.Lemmas.Triangulate
 import EmsModel.Lemmas.TriangulateGeom
 import EmsModel.Lemmas.TriangulateTable
+import EmsModel.Lemmas.TriangulateConvex
 /-!
 # C14 — triangulation exactly partitions every cell polygon
 
@@ -16,7 +17,8 @@ Clauses of the property and where they are proved
 * the areas sum to the cell's area: `fan_area`, `ear_area`, `cell_area` (signed, unconditional);
   `fan_oriented` (unsigned, fan path)
 * triangles lie inside the cell, do not overlap, cover it:
-  fan path `fan_inside`, `fan_no_overlap`, `fan_cover`; ear path `ear_inside_partial`
+  fan path `fan_inside`, `fan_no_overlap`, `fan_cover`, all three from the single hypothesis
+  `StrictConvex` in `fan_partition`; ear path `ear_inside_partial`
   (relative to the contract of the GEOS ear test)
 * every triangle names the linear index of its cell, empty cells produce none: `cell_index_spec`
 * every vertex index valid, the vertex list has no duplicates: `vertex_table_spec`
@@ -126,6 +128,36 @@ theorem fan_cover (s : Rat) (p : List Pt) (h3 : 3 ≤ p.length)
   | [], h3 => simp at h3
   | [_], h3 => simp at h3
   | [_, _], h3 => simp at h3
+
+/-- A strictly convex cell without repeated vertices (what the hull test of the code
+selects for the fan path) satisfies the hypotheses of `fan_inside`, `fan_no_overlap`,
+`fan_oriented` and `fan_cover`. -/
+theorem strictConvex_hyps (s : Rat) (p : List Pt) (h3 : 3 ≤ p.length)
+    (hc : StrictConvex s p) (hnd : p.Nodup) :
+    ConvexCell s p ∧ FanSorted s p ∧ (∀ t ∈ fan p, 0 < s * t.area2) := by
+  match p, h3 with
+  | v0 :: a :: b :: rest, _ =>
+    obtain ⟨h1, h2, h3⟩ := strictConvex_facts s v0 a b rest hc hnd
+    exact ⟨h1, h3.imp (fun h => le_of_lt h), h2⟩
+  | [], h3 => simp at h3
+  | [_], h3 => simp at h3
+  | [_, _], h3 => simp at h3
+
+/-- The fan path on a strictly convex cell: n - 2 triangles, each inside the cell, every
+point of the cell in some triangle, two triangles sharing at most points of one line,
+unsigned areas adding up to the cell's area — an exact partition. -/
+theorem fan_partition (s : Rat) (hs : s = 1 ∨ s = -1) (p : List Pt) (h3 : 3 ≤ p.length)
+    (hc : StrictConvex s p) (hnd : p.Nodup) :
+    (fan p).length = p.length - 2 ∧
+    (∀ t ∈ fan p, ∀ q, InTri t q → InCell s p q) ∧
+    (∀ q, InCell s p q → ∃ t ∈ fan p, InTri t q) ∧
+    (fan p).Pairwise MeetInLine ∧
+    sumAbsArea2 (fan p) = absR (shoelace2 p) := by
+  obtain ⟨hconv, hsorted, hpos⟩ := strictConvex_hyps s p h3 hc hnd
+  have hs0 : s ≠ 0 := by rcases hs with rfl | rfl <;> norm_num
+  exact ⟨fan_count p, fun t ht q hq => fan_inside s p hconv t ht q hq,
+    fun q hq => fan_cover s p h3 hpos q hq, fan_no_overlap s hs0 p hsorted hnd,
+    (fan_oriented s hs p hsorted).2⟩
 
 /-! ## the ear path -/
 
@@ -263,6 +295,8 @@ def ell : List Pt := [⟨0, 0⟩, ⟨0, 4⟩, ⟨2, 4⟩, ⟨2, 2⟩, ⟨4, 2⟩
 
 example : FanSorted 1 pentagon := by unfold pentagon; decide +kernel
 example : pentagon.Nodup := by unfold pentagon; decide +kernel
+example : StrictConvex 1 pentagon := by unfold StrictConvex pentagon; decide +kernel
+example : StrictConvex (-1) pentagon.reverse := by unfold StrictConvex pentagon; decide +kernel
 example : ConvexCell 1 pentagon := by unfold ConvexCell InCell pentagon; decide +kernel
 example : ∀ t ∈ fan pentagon, 0 < (1 : Rat) * t.area2 := by unfold pentagon; decide +kernel
 example : FanSorted (-1) pentagon.reverse := by unfold pentagon; decide +kernel
